@@ -146,3 +146,134 @@ class AnchorCoverage:
 
     def summary(self) -> Dict[str, int]:
         return {os.path.relpath(fn, repo.SRC): len(lines) for fn, lines in sorted(self.lines.items())}
+
+
+class PairingMonitor:
+    """
+    Per-key pairing contracts on the gather+zip sites (C12). Whatever the completion order of the user supplied awaitables,
+    the value stored for a key / a position must be the value produced for THAT key / position. The expected values come from the
+    harness World (vf/evaluators.py), whose tables give neighbouring keys different values.
+
+    Sites: RcEvaluator.evaluate_conditions, FcEvaluator.evaluate_format_constraints, HintsProvider.get_hints (public methods of the
+    public base classes; the harness evaluators inherit them) and gather_if_necessary (public utility; patched in every module
+    that bound the name at import time).
+    """
+
+    def __init__(self, on_violation: Callable[[str, str, Any], None]):
+        self.on_violation = on_violation
+        self.calls: Dict[str, int] = {"evaluate_conditions": 0, "evaluate_format_constraints": 0, "get_hints": 0, "gather_if_necessary": 0}
+        self.multi: Dict[str, int] = {k: 0 for k in self.calls}  # calls that paired >= 2 items
+        self._undo: List[Tuple[Any, str, Any]] = []
+
+    def _patch(self, owner, name, new):
+        self._undo.append((owner, name, getattr(owner, name)))
+        setattr(owner, name, new)
+
+    def __enter__(self):
+        from vf import evaluators as E
+        from ahbicht.content_evaluation.fc_evaluators import FcEvaluator, text_to_be_evaluated_by_format_constraint
+        from ahbicht.content_evaluation.rc_evaluators import RcEvaluator
+        from ahbicht.expressions.hints_provider import HintsProvider
+        import ahbicht.utility_functions as util
+
+        mon = self
+        orig_rc = RcEvaluator.evaluate_conditions
+        orig_fc = FcEvaluator.evaluate_format_constraints
+        orig_hints = HintsProvider.get_hints
+        orig_gather = util.gather_if_necessary
+
+        async def evaluate_conditions(self_, condition_keys, evaluatable_data, condition_keys_with_context=None):
+            keys = list(condition_keys)
+            result = await orig_rc(self_, condition_keys, evaluatable_data, condition_keys_with_context)
+            world = getattr(evaluatable_data, "body", None)
+            if isinstance(world, E.World):
+                mon.calls["evaluate_conditions"] += 1
+                mon.multi["evaluate_conditions"] += len(set(keys)) >= 2
+                for key in keys:
+                    expected = REAL_OF[world.rc[key]]
+                    if key not in result or result[key] is not expected:
+                        mon.on_violation("pairing-requirement-constraints", f"evaluate_conditions({keys}): key {key} is paired with {result.get(key)!r}, the evaluator produced {expected!r} for it (world {world.id})", {"keys": keys})
+                        break
+                if set(result.keys()) != set(keys):
+                    mon.on_violation("pairing-requirement-constraints", f"evaluate_conditions({keys}) returned the keys {sorted(result.keys())}", {"keys": keys})
+            return result
+
+        async def evaluate_format_constraints(self_, condition_keys):
+            keys = list(condition_keys)
+            text = text_to_be_evaluated_by_format_constraint.get()
+            world = E.current_world()
+            result = await orig_fc(self_, condition_keys)
+            if isinstance(world, E.World):
+                mon.calls["evaluate_format_constraints"] += 1
+                mon.multi["evaluate_format_constraints"] += len(set(keys)) >= 2
+                for key in keys:
+                    if 931 <= int(key) <= 935:
+                        continue
+                    expected = E.text_predicate(key, text) if world.fc_mode == "text" else world.fc[key]
+                    got = result.get(key)
+                    if got is None or got.format_constraint_fulfilled is not expected:
+                        mon.on_violation("pairing-format-constraints", f"evaluate_format_constraints({keys}): key {key} is paired with {got!r}, the evaluator produced fulfilled={expected} for it (world {world.id}, text {text!r})", {"keys": keys})
+                        break
+                    if world.fc_mode == "table" and world.fc_msg is not None and not expected and got.error_message != world.fc_msg.get(key):
+                        mon.on_violation("pairing-format-constraints", f"evaluate_format_constraints({keys}): key {key} carries the message {got.error_message!r}, the evaluator produced {world.fc_msg.get(key)!r} for it", {"keys": keys})
+                        break
+            return result
+
+        async def get_hints(self_, condition_keys, raise_key_error=True):
+            keys = list(condition_keys)
+            world = E.current_world()
+            result = await orig_hints(self_, condition_keys, raise_key_error)
+            if isinstance(world, E.World):
+                mon.calls["get_hints"] += 1
+                mon.multi["get_hints"] += len(set(keys)) >= 2
+                for key in keys:
+                    expected = E.hint_text(key, world.id) if world.hints is None else world.hints.get(key)
+                    got = result.get(key)
+                    if expected is None:
+                        continue
+                    if got is None or got.hint != expected or got.condition_key != key:
+                        mon.on_violation("pairing-hints", f"get_hints({keys}): key {key} is paired with {got!r}, the provider produced {expected!r} for it", {"keys": keys})
+                        break
+            return result
+
+        async def gather_if_necessary(items):
+            items = list(items)
+            slots: Dict[int, Any] = {}
+
+            def wrap(i, aw):
+                async def runner():
+                    value = await aw
+                    slots[i] = value
+                    return value
+
+                return runner()
+
+            wrapped = [wrap(i, x) if inspect.isawaitable(x) else x for i, x in enumerate(items)]
+            result = await orig_gather(wrapped)
+            mon.calls["gather_if_necessary"] += 1
+            mon.multi["gather_if_necessary"] += len(slots) >= 2
+            ok = len(result) == len(items)
+            if ok:
+                for i, x in enumerate(items):
+                    expected = slots[i] if i in slots else x
+                    if result[i] is not expected:
+                        ok = False
+                        break
+            if not ok:
+                mon.on_violation("pairing-gather-if-necessary", f"gather_if_necessary: position {i if len(result) == len(items) else '?'} of {len(items)} does not hold the value produced for it: {result!r:.300}", None)
+            return result
+
+        self._patch(RcEvaluator, "evaluate_conditions", evaluate_conditions)
+        self._patch(FcEvaluator, "evaluate_format_constraints", evaluate_format_constraints)
+        self._patch(HintsProvider, "get_hints", get_hints)
+        for mod in list(sys.modules.values()):
+            name = getattr(mod, "__name__", "")
+            if name.startswith("ahbicht") and getattr(mod, "gather_if_necessary", None) is orig_gather:
+                self._patch(mod, "gather_if_necessary", gather_if_necessary)
+        return self
+
+    def __exit__(self, *exc):
+        for owner, name, orig in reversed(self._undo):
+            setattr(owner, name, orig)
+        self._undo = []
+        return False
